@@ -135,7 +135,7 @@ def hexstr(data, off, n, upper=False):
     if isinstance(data, SBytes):
         out = []
         for k in range(n):
-            v = _rng(data.at(zint(off) + k))
+            v = simp(_rng(data.at(zint(off) + k)))
             out.append(simp(hexdigit(v / 16, upper)))
             out.append(simp(hexdigit(v % 16, upper)))
         return mkstr(out)
